@@ -120,7 +120,7 @@ func checkC04(args []string) {
 	nWr := 0
 	for _, raw := range wr.Tagged("CASE") {
 		var c struct {
-			Idx     int   `json:"idx"`
+			Idx     int `json:"idx"`
 			W, H    int
 			Bytes   []int `json:"bytes"`
 			Y, U, V []int
